@@ -89,9 +89,10 @@ def project(kind, ins, outs):
     # model (inputs) and the re-parse report judged by the oracle
     if kind == "html" and len(outs) >= 4:
         # implementation: rewritten document and final document (fields 0 and 2); the model line has exactly these two
-        return [outs[0], outs[2]]
+        # + the constant T1: the model answers T1 when its tag scanner agrees with the tokenizer on every start tag
+        return [outs[0], outs[2], "T1"]
     if kind == "html":
-        return outs[:2]
+        return outs[:3]
     return outs[:1]
 
 
